@@ -70,6 +70,17 @@ def generate(repo):
     # main does not join the workers
     _, pl, _ = find_fn(s4, 'processing_loop')
     joins = '.join()' in pl
+    # the handler must be installed whenever a worker may be spawned: every kind of container (compressed AND tar-archived journal / evtx)
+    # creates temporary files, so any narrower condition leaves some runs without a handler (seeded change C18-c)
+    plflat = re.sub(r'\s+', ' ', strip_trace(pl))
+    hi = plflat.find('match set_signal_handler()')
+    if hi < 0:
+        raise GenError("processing_loop: `match set_signal_handler()` not found")
+    guards = re.findall(r'if ([^{}]*?) \{ match set_signal_handler\(\)', plflat)
+    handler_always = guards == ['!map_pathid_path.is_empty()'] or (not guards)
+    spawn_i = plflat.find('.spawn(move || exec_fileprocessor_thread')
+    if spawn_i >= 0 and spawn_i < hi:
+        handler_always = False      # installed only after threads were spawned
     L = ['-- GENERATED by /verif/gen/s4gen.py — do not edit',
          'namespace S4V.Gen.Tmp', '',
          '/-- `decompress_to_ntf` holds the NAMED_TEMP_FILES lock from before `tempfile()` until the path is listed -/',
@@ -82,5 +93,8 @@ def generate(repo):
          f'def handlerTakesChannelLockFirst : Bool := {"true" if chan_first else "false"}',
          '/-- `processing_loop` joins the worker threads before returning -/',
          f'def mainJoinsWorkers : Bool := {"true" if joins else "false"}',
+         '/-- `processing_loop` installs the SIGINT handler whenever there is any path to process, before any worker thread is spawned (`true`);',
+         '`false`: under a narrower condition (some runs that create temporary files have no handler), or after the spawn -/',
+         f'def handlerInstalledWheneverWorkers : Bool := {"true" if handler_always else "false"}',
          '', 'end S4V.Gen.Tmp']
     return '\n'.join(L) + '\n', {'createUnderLock': under_lock, 'dropBeforeSummary': d1 and d2, 'createRefusedAfterHandler': refuses and handler_closes}
